@@ -294,10 +294,16 @@ class PrimaiteGame:
                 new_node.config.shut_down_duration = defaults_config["node_shut_down_duration"]
             if "node_scan_duration" in defaults_config and "node_scan_duration" not in node_cfg:
                 new_node.config.node_scan_duration = defaults_config["node_scan_duration"]
+            # (the node has already created its root folder and the folders its config declares: they get the defaults
+            # too, not only the folders created from now on)
             if "folder_scan_duration" in defaults_config:
                 new_node.file_system._default_folder_scan_duration = defaults_config["folder_scan_duration"]
+                for folder in new_node.file_system.folders.values():
+                    folder.scan_duration = defaults_config["folder_scan_duration"]
             if "folder_restore_duration" in defaults_config:
                 new_node.file_system._default_folder_restore_duration = defaults_config["folder_restore_duration"]
+                for folder in new_node.file_system.folders.values():
+                    folder.restore_duration = defaults_config["folder_restore_duration"]
 
             if "users" in node_cfg and new_node.software_manager.software.get("user-manager"):
                 user_manager: UserManager = new_node.software_manager.software["user-manager"]  # noqa
